@@ -23,7 +23,7 @@ Follow == {"none", "set_other", "compact", "compact2", "plan_after", "set_back"}
 
 \* classes of text; "pad*" have surrounding whitespace
 Classes == {"ascii", "pad_space", "pad_tab_nl", "newlines", "crlf", "quotes", "control",
-            "html", "linesep", "astral", "combining", "nbsp_pad", "long64k", "html200k", "json_like", "over_limit", "unicode_blank", "long_multibyte", "near_limit"}
+            "html", "linesep", "astral", "combining", "nbsp_pad", "long64k", "html200k", "json_like", "over_limit", "unicode_blank", "long_multibyte", "near_limit", "mentions_id"}
 Padded(c) == c \in {"pad_space", "pad_tab_nl"}
 
 \* the paths that exist: plan is JSON only and carries both fields; --body-stdin
@@ -41,6 +41,7 @@ MayTrim(m, c, f) == f = "title" /\ (m \in {"flags", "bodystdin"} \/ c = "set")
 Cases ==
   {[mode |-> m, cmd |-> c, field |-> f, class |-> k, follow |-> w] :
       m \in Modes, c \in Cmds, f \in Fields, k \in Classes, w \in Follow}
+\* "mentions_id": ordinary text that happens to contain the id of a pruned item and of a live one
 \* "near_limit": bodies whose size is swept across the largest line the log format
 \* admits (whatever that is: the driver finds it by bisection)
 RealCases == {x \in Cases : /\ PathExists(x.mode, x.cmd, x.field)
